@@ -276,8 +276,9 @@ def run(ck, ix, tier):
     for q in ("GenericPlainRegistry.define", "GenericPlainRegistry.load_definitions"):
         fn = ix.func(PR, q)
         ck.analysed(fn)
-        loops = [l for l in walk_local(fn.node) if isinstance(l, ast.For) and "iter_parsed_project(parsed_project)" in norm(l.iter)]
-        ok = bool(loops) and all(len(l.body) == 1 and norm(l.body[0]) == "self._helper_dispatch_adder(definition)" for l in loops)
+        from .. import shape as _shl
+        loops = [l for l in walk_local(fn.node) if isinstance(l, ast.For) and _shl.match("_P.iter_parsed_project(_X)", _shl.resolve(l.iter, fn.node)) is not None]
+        ok = bool(loops) and all(len(l.body) == 1 and isinstance(l.target, ast.Name) and norm(l.body[0]) == f"self._helper_dispatch_adder({l.target.id})" for l in loops)
         ck.check(ok, "G-EXH", f"{q}|every-parsed-definition-dispatched", fn.loc(), "every definition of the parsed project is dispatched", f"{q} no longer dispatches every definition of the parsed project")
 
     # ------------------------------------------------------------ (c) body consumption of the blocks, (d) order
@@ -369,7 +370,7 @@ def run(ck, ix, tier):
     rd = [n.id for n in cfgs.nodes if n.kind == "test" and norm(n.ast) == "self._on_redefinition == 'raise'"]
     ck.check(bool(rd) and all(edge_leads_only_to_raise(cfgs, x, "t") is None for x in rd), "G-ERR", "_helper_single_adder|redefinition-raise-mode-raises", fn.loc(), "on_redefinition='raise' raises RedefinitionError", "on_redefinition='raise' no longer raises")
     fn = ix.func(PR, "GenericPlainRegistry._add_alias")
-    ck.check("unit = unit_dict[definition.name]" in norm(fn.node), "G-ERR", "_add_alias|unknown-target-raises-KeyError", fn.loc(), "@alias of an unknown unit fails (KeyError)", "@alias no longer looks its target up")
+    ck.check(memo.alias_adder_facts(ix)[2], "G-ERR", "_add_alias|unknown-target-raises-KeyError", fn.loc(), "@alias of an unknown unit fails (KeyError)", "@alias no longer looks its target up")
 
     # ------------------------------------------------------------ (e) disk cache; (f) dependency cycles
     memo.rule_disk_cache_hit(ck, ix)
